@@ -229,6 +229,9 @@ class MAGen:
             cond = self.bexpr(agent, terms, r.choice([0, 1, 1, 2]), pdis=pdis) if r.random() < pcond else C(True)
             if cond["op"] == "const":
                 cond = C(True)
+            if f["type"]["k"] != "bool" and cond["op"] == "const" and any(
+                    e["f"]["name"] == f["name"] and e["c"]["op"] == "const" for e in effs):
+                continue  # two unconditional assignments to one object fluent are rejected at construction
             effs.append({"kind": "assign", "f": tgt, "v": val, "c": cond, "forall": []})
         if sum(1 for e in effs if e["c"]["op"] != "const") > 3:
             for e in effs[3:]:
@@ -668,7 +671,8 @@ def run(ctx):
     if not any(r["raised"] == "none" for r in batch):
         raise MachineryError("no compilation succeeded")
     res = judge(ctx, batch, "all")
-    expected = sum((r["nstates"] if r["raised"] == "none" else 0) + 1 for r in batch)
+    # per compilation: the root state, the pseudo-state <<>> and every total state over the compiled ground fluents
+    expected = sum((r["nstates"] if r["raised"] == "none" else 0) + 2 for r in batch)
     byid = {r["cid"]: r for r in batch}
     fails = {}
     zones = {}
